@@ -1696,11 +1696,8 @@ func ExecSelect(query *Query, current []any) ([]any, error) {
 		switch current := current.(type) {
 		case []any:
 			{
-				rs, err := ExecSelect(query, current)
-				if err != nil {
-					return nil, err
-				}
-				copy = append(copy, rs)
+				// an inner dimension has already been projected by its own exec
+				copy = append(copy, current)
 			}
 		case Map:
 			{
